@@ -44,6 +44,13 @@ pub struct Mode {
     pub human_readable: bool,
     pub lend: bool,
     pub structs_as_maps: bool,
+    /// what `SeqAccess::size_hint` / `MapAccess::size_hint` announce: 0 = the true remaining count, 1 = usize::MAX,
+    /// 2 = 2^40 (a length-prefixed format reports what the document's header SAYS; a hint is only a hint)
+    pub hint: u8,
+    /// how a struct written as a map names its fields: 0 = the field name as a string, 1 = "packed": the field's index as
+    /// an integer for fields at even positions and the field name as a byte string for those at odd positions (codecs that
+    /// key struct fields by position, or hand names out as bytes)
+    pub keys: u8,
 }
 
 #[derive(Debug)]
@@ -493,7 +500,13 @@ impl ser::SerializeStruct for SerMap {
     type Ok = V;
     type Error = Error;
     fn serialize_field<T: ?Sized + Serialize>(&mut self, key: &'static str, value: &T) -> Result<(), Error> {
-        self.items.push((V::Str(key.to_string()), value.serialize(Ser { mode: self.mode })?));
+        let at = self.items.len();
+        let k = match (self.mode.keys, at % 2) {
+            (0, _) => V::Str(key.to_string()),
+            (_, 0) => V::U(at as u64),
+            _ => V::Bytes(key.as_bytes().to_vec()),
+        };
+        self.items.push((k, value.serialize(Ser { mode: self.mode })?));
         Ok(())
     }
     fn end(self) -> Result<V, Error> {
@@ -761,7 +774,11 @@ impl<'de, 'a> SeqAccess<'de> for SeqDe<'a> {
         }
     }
     fn size_hint(&self) -> Option<usize> {
-        Some(self.left)
+        Some(match self.mode.hint {
+            1 => usize::MAX,
+            2 => 1usize << 40,
+            _ => self.left,
+        })
     }
 }
 struct BytesSeqDe<'a> {
@@ -1115,7 +1132,7 @@ mod tests {
         for hr in [false, true] {
             for lend in [false, true] {
                 for maps in [false, true] {
-                    let m = Mode { human_readable: hr, lend, structs_as_maps: maps };
+                    let m = Mode { human_readable: hr, lend, structs_as_maps: maps, hint: (hr as u8) + (lend as u8), keys: (maps && !hr) as u8 };
                     for e in [E::A([1, 2, 3, 4]), E::B { x: 9, y: vec![5, 6] }, E::C] {
                         let w = to_wire(&e, m).unwrap();
                         let back: E = from_wire(&w, m).unwrap();
